@@ -373,6 +373,7 @@ func runC14(o Opts) error {
 		n = 25
 	}
 	composites := 0
+	repeated := 0
 	for zi, z := range zones {
 		loc, err := time.LoadLocation(z)
 		if err != nil {
@@ -397,6 +398,32 @@ func runC14(o Opts) error {
 					if t.Year() == y && int(t.Month()) == m && t.Day() == d && t.Hour() == 12 { // the day may not exist at all (Pacific/Apia 2011-12-30)
 						c14round(s, "DateTime", types.DateTime(t), cvZ(y, m, d, 12, 0, 0), t.Format("MST"), z, "round/datetime-on-offset-change-day")
 					}
+				}
+			}
+			if off < prevOff && !(day.Year() == 2008 && day.YearDay() == 1) && nChange <= 12 {
+				// clocks went back between noon yesterday and noon today: find the instant, take the same wall-clock
+				// reading 20 minutes before and (offset difference - 20 minutes) after it - the hour that happens twice
+				lo, hi := day.Add(-24*time.Hour), day
+				for hi.Sub(lo) > time.Second {
+					mid := lo.Add(hi.Sub(lo) / 2)
+					if _, o := mid.In(loc).Zone(); o == prevOff {
+						lo = mid
+					} else {
+						hi = mid
+					}
+				}
+				first := hi.Add(-20 * time.Minute).Truncate(time.Second).In(loc)
+				second := first.Add(time.Duration(prevOff-off) * time.Second)
+				if first.Format("15:04:05") == second.Format("15:04:05") && first.Format("MST") != second.Format("MST") {
+					for _, t := range []time.Time{first, second} {
+						b := mustJSON(types.DateTime(t))
+						var x types.DateTime
+						if err := json.Unmarshal(b, &x); err != nil || !time.Time(x).Equal(t) {
+							s.Fail(map[string]any{"op": "repeated-hour", "type": "DateTime", "tz": z, "json": string(b), "want": t.UTC().Format(time.RFC3339), "got": time.Time(x).UTC().Format(time.RFC3339)},
+								"a date-time in the hour that occurs twice when clocks go back decodes to a different instant although its zone abbreviation tells the two apart")
+						}
+					}
+					repeated++
 				}
 			}
 			prevOff = off
@@ -590,6 +617,7 @@ func runC14(o Opts) error {
 	time.Local = time.UTC
 	s.Extra["zones"] = len(zones)
 	s.Extra["composite_round_trips"] = composites
+	s.Extra["repeated_hours_checked"] = repeated
 	return s.Close()
 }
 
